@@ -14,7 +14,8 @@ EXPL = ('(R-WORDALG/c++) the same word-level algebra with the resolved AST as fr
         'the truth table over compare in {-1,0,1} x flag in {0,1} is evaluated on the CFG (this is the branch uniform sampling never reaches); '
         '(R-NOWRAP) every unsigned addition in the multi-precision layer either provably cannot wrap (exact upper bound from the widths '
         'its operands were widened from, e.g. a*b + word + carry <= 2^128-1) or its carry-out is observed by comparing the stored sum with an '
-        'addend; multi-word subtractions compare the result with the minuend (borrow observed).')
+        'addend; multi-word subtractions compare the result with the minuend (borrow observed).'
+        ' (R-WORDALG, ARMv6-M) the Thumb routines are decided on the disassembly of the sources after the divided-to-unified syntax rewrite: exact add / subtract / double / product / square with 32-bit words and, for the fused routines, 2^384 V + Z == T + U p (mod 2^768) at the call of the C++ reduce trampoline.')
 
 
 def run(ctx):
